@@ -48,6 +48,10 @@ def run(ctx):
     parse_rule(ctx, syn)
     merge_rule(ctx, syn)
     delegate_rule(ctx)
+    import mirq
+    from props.c02 import every_rule
+    r_ev, n_ev = every_rule(ctx, mirq.Program(ctx.facts.mir()), rid="C10.KEYDATA", only=r"::remove_key$")   # removing a key takes every data item of the key along
+    ctx.floor(r_ev, n_ev, 2, "cascade loops of remove_key")
 
 
 # ====================================================================== TEST
